@@ -463,6 +463,17 @@ fn varint2(v: usize) -> [u8; 2] {
 /// A correctly protected client Initial packet (version 1, packet number 0, frames = PING + PADDING) that fills a
 /// datagram of exactly `total` bytes: what a client that ignores the 1200-byte rule would send. `total >= 64`.
 pub fn craft_initial(sc: &dyn quinn_proto::crypto::ServerConfig, dcid: &[u8], scid: &[u8], total: usize) -> Vec<u8> {
+    craft_initial_token(sc, dcid, scid, &[], total)
+}
+
+/// smallest datagram `craft_initial_token` can fill: header, 1-byte packet number, 3 bytes of frames (the header-protection
+/// sample starts 4 bytes behind the packet-number offset) and the 16-byte tag
+pub fn craft_initial_min(dcid_len: usize, scid_len: usize, token_len: usize) -> usize {
+    1 + 4 + 1 + dcid_len + 1 + scid_len + 1 + token_len + 2 + 1 + 3 + 16
+}
+
+/// The same with a DCID of any length 0..=20 and a token (< 64 bytes; empty = none): `total >= craft_initial_min(..)`.
+pub fn craft_initial_token(sc: &dyn quinn_proto::crypto::ServerConfig, dcid: &[u8], scid: &[u8], token: &[u8], total: usize) -> Vec<u8> {
     let keys = sc.initial_keys(1, quinn_proto::ConnectionId::new(dcid)).ok().expect("version 1");
     let mut p = vec![0xc0u8];
     p.extend_from_slice(&1u32.to_be_bytes());
@@ -470,7 +481,9 @@ pub fn craft_initial(sc: &dyn quinn_proto::crypto::ServerConfig, dcid: &[u8], sc
     p.extend_from_slice(dcid);
     p.push(scid.len() as u8);
     p.extend_from_slice(scid);
-    p.push(0); // token length
+    assert!(token.len() < 64);
+    p.push(token.len() as u8); // token length (one-byte varint)
+    p.extend_from_slice(token);
     let pn_offset = p.len() + 2;
     let payload = total - pn_offset - 1 - 16;
     p.extend_from_slice(&varint2(1 + payload + 16));
@@ -485,7 +498,7 @@ pub fn craft_initial(sc: &dyn quinn_proto::crypto::ServerConfig, dcid: &[u8], sc
     p
 }
 
-pub const OFFPATH_RULE: &str = "one execution = a migration-enabled server (random transport config, Retry policy 1/4), one genuine client connection with a workload, and per execution one or all of: (A) datagrams from never-validated spoofed addresses at random instants: long headers with an unsupported version in datagrams of 7..1400 bytes (CID lengths 0/8/20), correctly protected supported-version client Initials (PING+PADDING) in datagrams of 64..1199 bytes and, as control, 1200 bytes, genuine first Initials of another client truncated to 50/600/1199 bytes; (B) the client acting as a malicious but authenticated peer (frame-injection hook): 2..6 small 1-RTT packets carrying PATH_CHALLENGE, each withheld and delivered FROM a spoofed address X after a later packet has been processed (so it cannot migrate the path); (C) 3..8 small genuine 1-RTT PING packets of the idle client delivered in order alternately from spoofed addresses X and Y (each migrates the server's path). The spoofed addresses never answer anything. Oracles (C07, RFC 9000 8.1/8.2.2/9.3): per-destination ledger over every datagram the server emits (connection transmits to any address and endpoint responses), cumulative per address and never rebased, armed by the harness' own notion of validated (Handshake packet accepted from the address / token the server put into a Retry for it / the node chose the address itself): a datagram to an unvalidated address may only be started while bytes sent to it < 3 x bytes received from it: `amplification-limit-exceeded-off-path` (destination is not the connection's path), `amplification-limit-exceeded-cumulative` (destination is the path; cumulative over re-migrations), `stateless-response-exceeds-3x` (endpoint response > 3 x the inciting datagram, or beyond the cumulative budget); `short-initial-reply` / `short-initial-state`: a supported-version Initial in a datagram < 1200 bytes provokes no datagram at all and leaves the number of connections, accepted connections and buffered bytes of the endpoint unchanged; plus the per-path ledger of the simulator. non-trivial = handshake completed and >= 3 attack datagrams were handled";
+pub const OFFPATH_RULE: &str = "one execution = a migration-enabled server (random transport config, Retry policy 1/4), one genuine client connection with a workload, and per execution one or all of: (A) datagrams from never-validated spoofed addresses at random instants: long headers with an unsupported version in datagrams of 7..1400 bytes (CID lengths 0/8/20), correctly protected supported-version client Initials (PING+PADDING; DCID length 0..20, half of them < 8; source CID 0/8/20; a third with a token of 1..40 random bytes) in datagrams from the smallest that holds the packet (about 30 bytes) to 1199 bytes and, as control, 1200 bytes, genuine first Initials of another client truncated to 50/600/1199 bytes; (B) the client acting as a malicious but authenticated peer (frame-injection hook): 2..6 small 1-RTT packets carrying PATH_CHALLENGE, each withheld and delivered FROM a spoofed address X after a later packet has been processed (so it cannot migrate the path); (C) 3..8 small genuine 1-RTT PING packets of the idle client delivered in order alternately from spoofed addresses X and Y (each migrates the server's path). The spoofed addresses never answer anything. Oracles (C07, RFC 9000 8.1/8.2.2/9.3): per-destination ledger over every datagram the server emits (connection transmits to any address and endpoint responses), cumulative per address and never rebased, armed by the harness' own notion of validated (Handshake packet accepted from the address / token the server put into a Retry for it / the node chose the address itself): a datagram to an unvalidated address may only be started while bytes sent to it < 3 x bytes received from it: `amplification-limit-exceeded-off-path` (destination is not the connection's path), `amplification-limit-exceeded-cumulative` (destination is the path; cumulative over re-migrations), `stateless-response-exceeds-3x` (endpoint response > 3 x the inciting datagram, or beyond the cumulative budget); `short-initial-reply` / `short-initial-state`: a supported-version Initial in a datagram < 1200 bytes provokes no datagram at all and leaves the number of connections, accepted connections and buffered bytes of the endpoint unchanged; plus the per-path ledger of the simulator. non-trivial = handshake completed and >= 3 attack datagrams were handled";
 
 pub fn offpath(seed: u64, out: &mut Outcome) {
     let mut rng = Rng::new(seed ^ 0x0ff9a7);
@@ -522,6 +535,7 @@ pub fn offpath(seed: u64, out: &mut Outcome) {
         sim.record_plain = true;
     }
 
+    let mut handled: BTreeMap<&'static str, u64> = BTreeMap::new();
     // (A) stateless attack datagrams, scheduled up front: (at, from, data, kind)
     let mut attacks: Vec<(u64, std::net::SocketAddr, Vec<u8>, &'static str)> = Vec::new();
     let mut next_port = 56000u16;
@@ -546,13 +560,31 @@ pub fn offpath(seed: u64, out: &mut Outcome) {
             let from = addr(56900 + rng.below(3) as u16);
             attacks.push((rng.below(3_000_000_000), from, d, "unsupported-version"));
         }
-        for _ in 0..rng.range(2, 6) {
-            let size = *rng.pick(&[64usize, 100, 600, 1000, 1199, 1199, 1200]);
-            let dl = 8 + rng.below(13) as usize;
+        for _ in 0..rng.range(2, 8) {
+            // "a supported-version Initial carried in a datagram shorter than 1200 bytes", whatever its header looks like:
+            // DCID of every length 0..20 (half of them shorter than the 8 bytes a client must use, RFC 9000 7.2), source CID
+            // 0/8/20, with and without a token (random bytes: not one the server issued), datagram sizes from the smallest
+            // that holds the packet
+            let dl = match rng.below(6) {
+                0 | 1 | 2 => rng.below(8) as usize,
+                3 => 8,
+                _ => 8 + rng.below(13) as usize,
+            };
+            let sl = *rng.pick(&[8usize, 8, 0, 20]);
+            let tl = if rng.chance(1, 3) { 1 + rng.below(40) as usize } else { 0 };
+            let min = craft_initial_min(dl, sl, tl);
+            let size = (*rng.pick(&[0usize, 0, 40, 64, 100, 600, 1000, 1199, 1199, 1200])).max(min);
             let dcid = rng.bytes(dl);
-            let scid = rng.bytes(8);
-            let d = craft_initial(&*sc_crypto, &dcid, &scid, size);
+            let scid = rng.bytes(sl);
+            let token = rng.bytes(tl);
+            let d = craft_initial_token(&*sc_crypto, &dcid, &scid, &token, size);
             let kind = if size < 1200 { "short-initial" } else { "full-initial" };
+            if size < 1200 {
+                *handled.entry(if dl < 8 { "short-initial:dcid<8" } else { "short-initial:dcid>=8" }).or_default() += 1;
+                if tl > 0 {
+                    *handled.entry("short-initial:token").or_default() += 1;
+                }
+            }
             attacks.push((rng.below(3_000_000_000), fresh(&mut next_port), d, kind));
         }
         for i in 0..rng.below(3) {
@@ -568,7 +600,6 @@ pub fn offpath(seed: u64, out: &mut Outcome) {
         }
     }
     attacks.sort_by_key(|a| a.0);
-    let mut handled: BTreeMap<&'static str, u64> = BTreeMap::new();
     let xaddr = addr(57001);
     let yaddr = addr(57002);
     let mut challenges_left = if mode == 1 || mode == 3 { rng.range(2, 6) } else { 0 };
@@ -591,6 +622,8 @@ pub fn offpath(seed: u64, out: &mut Outcome) {
             let before = (sim.nodes[SERVER].conns.len(), sim.nodes[SERVER].accepted.len(), sim.nodes[SERVER].ep.open_connections(), sim.nodes[SERVER].ep.incoming_buffer_bytes(), sim.nodes[SERVER].accept_errors.len());
             let tlen = sim.trace.len();
             let len = data.len();
+            let head = crate::hex(&data[..data.len().min(48)]);
+            let dcid_len = data.get(5).copied().unwrap_or(0);
             let at = sim.now;
             sim.handle_datagram(SERVER, Dgram { at, seq: 0, from, to: saddr, ecn: None, data, origin: usize::MAX, genuine: false });
             *handled.entry(kind).or_default() += 1;
@@ -598,7 +631,7 @@ pub fn offpath(seed: u64, out: &mut Outcome) {
             if kind == "short-initial" || kind == "truncated-initial" {
                 let replies: Vec<String> = sim.trace[tlen..].iter().filter(|r| matches!(r, Rec::EpTx { .. } | Rec::Tx { .. })).map(|r| format!("{r:?}")).collect();
                 if !replies.is_empty() {
-                    sim.fail("short-initial-reply", format!("a supported-version Initial in a {len}-byte datagram from {from} was answered: {replies:?}"));
+                    sim.fail("short-initial-reply", format!("a supported-version Initial in a {len}-byte datagram from {from} (DCID length {dcid_len}; first bytes {head}) was answered: {replies:?}"));
                 }
                 if before != after {
                     sim.fail("short-initial-state", format!("a supported-version Initial in a {len}-byte datagram from {from} changed the server's (connections, accepted, open_connections, buffered bytes, accept errors) {before:?} -> {after:?}"));
